@@ -86,7 +86,7 @@ def fmtOf (tbl : List (UInt64 × Str)) (v : UInt64) : Str :=
 /-- the hypothesis about `f64::to_string` the round-trip theorem needs, checked for every value of this request -/
 def fmtHypothesisOk (tbl : List (UInt64 × Str)) : Bool :=
   tbl.all fun (b, t) =>
-    (match TextParse.parseFloat t with | some r => TextParse.canonF64 r == TextParse.canonF64 b | none => false) &&
+    (match TextParse.parseFloat t with | some r => r == TextParse.canonF64 b | none => false) &&   -- exactly `RT.FmtOk.reads`
     t.all (fun c => c != 32 && c != 10 && c != 34 && c != 92) && !t.isEmpty
 
 def textHandle (args : List String) : String :=
